@@ -6,7 +6,7 @@ from . import common as K
 META = {
     "level": "proof",
     "technique": "Lean 4: lockset soundness and exact characterisation over a reader/writer-mutex LTS (all schedules), decided on an access "
-                 "table GENERATED from beacon.go and treasure.go by a go/ast extractor; replay of every failing table entry under the Go "
+                 "table GENERATED from beacon.go, treasure.go, bucket.go (equality index, pending queue) and the swamp files (writeInterval / closeAfterIdle under mu, buckets under bucketsMu, destroyed under closeMutex) by a go/ast extractor; replay of every failing table entry under the Go "
                  "race detector (child process built with -race) through the real in-process gateway",
     "text": ("Hv.C10.discipline_sound: a lockset-disciplined access table (every write under the struct's mutex in write mode, every read "
              "under it at least in read mode) admits no schedule in which two conflicting accesses are in progress together; holds_iff: "
@@ -15,7 +15,10 @@ META = {
              "generated table (311 rows on the unchanged tree) and names one finding per struct.field."),
     "note": ("PARTIAL: (1) lockset is sufficient, not necessary — other synchronisation (the record guard that setters run under, "
              "happens-before through channels) is not credited, so a listed pair may be benign when both sides always run under the "
-             "guard; (2) only the `beacon` and `treasure` structs are in the table (swamp fields, hydra maps, gateway are not); "
+             "guard; (2) the table covers `beacon`, `treasure`, `bucket` and the mutex-guarded plain fields of `swamp` (atomics, sync.Map, "
+             "fields set once in New, the hydra maps and the gateway are not in it); each field group has ONE mutex, and the "
+             "publication order of lazily built indexes (the buildBeacon / bucket-served-before-drain races found by agent idx) is "
+             "outside a lockset argument; "
              "(3) the statement is about unsynchronised access only: 'no request panics' and 'every read returns one committed "
              "version' are not decided (the latter only as: getters and setters of a treasure exclude each other on t.mu); "
              "(4) replays are per struct and both scenarios (Set/GetAll on the beacon, Set/Get on a treasure) are replayed on every "
@@ -33,8 +36,10 @@ def finding_text(fid):
     if s == "beacon":
         return ("beacon.%s: GetAll returns the live map and its callers (swamp.GetAll, treasuresForBeacon) iterate it without b.mu while "
                 "Add/Delete/Shift* write it under b.mu — runtime fatal 'concurrent map iteration and map write' / race report" % f)
-    return ("treasure.%s is written by setters without t.mu (they run under the record guard only) and read by getters under "
-            "t.mu.RLock only (Get does not take the guard)" % f)
+    if s == "treasure":
+        return ("treasure.%s is written by setters without t.mu (they run under the record guard only) and read by getters under "
+                "t.mu.RLock only (Get does not take the guard)" % f)
+    return "%s.%s: two accesses, one of them a write, that do not exclude each other on the struct's mutex (see the representative pair)" % (s, f)
 
 
 def run(ctx):
@@ -59,7 +64,8 @@ def run(ctx):
             ctx.hx_log = out
     if ok:
         # both race scenarios are always replayed (a table that misses a race must not hide it), plus one per failing field
-        ops = ["case 0 race", "race control none", "race beacon treasuresByKeys", "race treasure treasure"]
+        ops = ["case 0 race", "race control none", "race beacon treasuresByKeys", "race treasure treasure",
+               "race bucket byValue", "race swampBuckets buckets"]
         ops += [o for o in ("race %s %s" % tuple(x.split(".", 1)) for x in racy) if o not in ops]
         logdir = ctx.path("racelogs")
         os.makedirs(logdir, exist_ok=True)
